@@ -1,2 +1,272 @@
-(* Property C09 - statements only (proofs in Proofs/C09.v). Not built yet. *)
-From SC.Model Require Import Base.
+(* Property C09 - dates are read as calendar dates and date arithmetic is calendar arithmetic.
+   STATEMENTS ONLY (proofs: Proofs/C09.v).  Model functions: Chrono.date_of_ymd_opt
+   (NaiveDate::from_ymd_opt), RuleFns.small_date, RuleFns.to_duration, Items.date_calc /
+   Items.calculate (DateItem::calculate), Lexer.token_infos (the today / tomorrow / yesterday
+   constants), Format.date_print.  Spec: Spec/Calendar.v (proleptic Gregorian calendar:
+   valid_date, days_from_civil, civil_from_days, add_days, add_months, add_years, diff_days,
+   next_date).
+
+   Two genuine defects of the crate are pinned by its own tests (execute_19..26) and are
+   recorded in known_findings.json instead of repaired; the theorems below say exactly where
+   the arithmetic is calendar arithmetic and what is computed elsewhere:
+     C09-duration-quantised        a Duration has no unit: 30 days or more are re-read as 365-day
+                                   years, 30-day months and a remainder (C09_days_quantised,
+                                   C09_days_refuted)
+     C09-month-sub-no-year-borrow  subtracting months wraps below january without decreasing the
+                                   year (C09_months_sub, C09_months_sub_refuted) *)
+From SC.Model Require Import Base Num NumF64 Types Config Case Chrono Parser RuleFns Items Format Lexer Api Run64.
+From SC.Spec Require Import Calendar.
+From SC.Gen Require Import RustConsts ConfigData.
+From SC.Proofs Require Import C09.
+From Coq Require Import ZArith Bool List Floats.
+Import ListNotations.
+Local Open Scope Z_scope.
+
+(* ---------------------------------------------------------------- reading a date *)
+
+(* from_ymd_opt accepts exactly the existing calendar dates, for every integer year, month and
+   day (within chrono's years -262143 .. 262142), and returns the day number of that date *)
+Theorem C09_valid_iff : forall y m d,
+  MIN_YEAR <= y <= MAX_YEAR ->
+  (date_of_ymd_opt y m d <> None <-> valid_date y m d = true) /\
+  (forall n, date_of_ymd_opt y m d = Some n -> civil_from_days n = (y, m, d)).
+Proof. exact ymd_opt_iff. Qed.
+
+Section WithNum.
+Context {F : Type} {NF : Num F}.
+
+(* the date rule, for all field values: what it accepts is the existing calendar date
+   (year, month, day) written in the fields, the year being the current year when the pattern
+   has no year field *)
+Theorem C09_small_date_sound : forall now_year (cfg : config F) vs fs t,
+  small_date now_year cfg vs fs = Ok (Some t) ->
+  exists day month n,
+    get_number vs (s "day") fs = Some day /\ get_number_or_month vs (s "month") fs = Some month /\
+    t = TDate n (get_time_offset cfg) /\
+    let y := match get_number vs (s "year") fs with Some y => as_i32 y | None => now_year end in
+    valid_date y month (as_u32 day) = true /\ MIN_YEAR <= y <= MAX_YEAR /\
+    n = days_from_civil y month (as_u32 day) /\
+    civil_from_days n = (y, month, as_u32 day).
+Proof. exact small_date_sound. Qed.
+
+(* every existing date is accepted, impossible dates (31 april, 29 feb of a non-leap year,
+   month 13, day 0, ...) never are *)
+Theorem C09_small_date_complete : forall now_year (cfg : config F) vs fs day month,
+  has "day" fs && has "month" fs = true ->
+  get_number vs (s "day") fs = Some day -> get_number_or_month vs (s "month") fs = Some month ->
+  let y := match get_number vs (s "year") fs with Some y => as_i32 y | None => now_year end in
+  (valid_date y month (as_u32 day) = true -> MIN_YEAR <= y <= MAX_YEAR ->
+   small_date now_year cfg vs fs
+   = Ok (Some (TDate (days_from_civil y month (as_u32 day)) (get_time_offset cfg)))) /\
+  (valid_date y month (as_u32 day) = false -> small_date now_year cfg vs fs = Ok None).
+Proof. exact small_date_complete. Qed.
+
+Theorem C09_small_date_no_panic : forall now_year (cfg : config F) vs fs,
+  exists o, small_date now_year cfg vs fs = Ok o.
+Proof. exact small_date_no_panic. Qed.
+
+(* ---------------------------------------------------------------- A to B *)
+Theorem C09_to_days : forall (vs : vars F) (fs : fields F) a b tza tzb,
+  has "source" fs && has "target" fs = true ->
+  get_date vs (s "source") fs = Some (a, tza) -> get_date vs (s "target") fs = Some (b, tzb) ->
+  to_duration vs fs = Ok (Some (TDuration (Z.abs (diff_days a b) * 86400))).
+Proof. exact to_duration_dates. Qed.
+
+Theorem C09_to_symmetric : forall (vs : vars F) (fs1 fs2 : fields F) a b tza tzb tza' tzb',
+  has "source" fs1 && has "target" fs1 = true -> has "source" fs2 && has "target" fs2 = true ->
+  get_date vs (s "source") fs1 = Some (a, tza) -> get_date vs (s "target") fs1 = Some (b, tzb) ->
+  get_date vs (s "source") fs2 = Some (b, tzb') -> get_date vs (s "target") fs2 = Some (a, tza') ->
+  to_duration vs fs1 = to_duration vs fs2.
+Proof. exact to_duration_symmetric. Qed.
+
+(* ---------------------------------------------------------------- date +/- duration *)
+(* only a duration can be added to a date; the time zone label is kept; no panic *)
+Theorem C09_calc_item : forall (bexec : config F -> str -> res (option F)) cfg n tz r op,
+  calculate bexec cfg (IDate n tz) r op =
+  match r with
+  | IDuration dur =>
+    match date_calc n dur op with
+    | Ok o => Ok (option_map (fun n' => IDate n' tz) o)
+    | Panic p => Panic p
+    end
+  | _ => Ok None
+  end /\ (forall dur, exists o, date_calc n dur op = Ok o).
+Proof. exact calc_item. Qed.
+
+End WithNum.
+
+(* fewer than 30 days (up to 4 weeks): the date exactly that many days away, or no result when
+   that day is outside chrono's range *)
+Theorem C09_days_exact : forall n k,
+  -30 < k < 30 ->
+  date_calc n (k * 86400) OAdd = Ok (if day_in_range (n + k) then Some (add_days n k) else None) /\
+  date_calc n (k * 86400) OSub = Ok (if day_in_range (n - k) then Some (add_days n (- k)) else None).
+Proof. exact calc_days. Qed.
+
+(* KNOWN C09-duration-quantised: what k days do in general: k / 365 years, then (k mod 365) / 30
+   months, then the remaining days *)
+Theorem C09_days_quantised : forall n y m d k,
+  civil_from_days n = (y, m, d) -> day_in_range n = true -> 0 <= k ->
+  date_calc n (k * 86400) OAdd =
+  Ok (option_bind (civil_opt (add_years y m d (k / 365))) (fun _ =>
+      option_bind (civil_opt (add_months (y + k / 365) m d (k mod 365 / 30))) (fun n2 =>
+        if day_in_range (n2 + k mod 365 mod 30) then Some (add_days n2 (k mod 365 mod 30)) else None))).
+Proof. exact calc_days_quantised. Qed.
+
+Theorem C09_days_refuted :
+  let n := days_from_civil 2021 3 1 in
+  date_calc n (30 * 86400) OSub = Ok (Some (days_from_civil 2021 2 1)) /\
+  add_days n (- 30) = days_from_civil 2021 1 30 /\
+  date_calc n (35 * 86400) OAdd = Ok (Some (days_from_civil 2021 4 6)) /\
+  add_days n 35 = days_from_civil 2021 4 5 /\
+  date_calc (days_from_civil 2020 2 29) (month_secs 13) OAdd = Ok None /\
+  add_months 2020 2 29 13 = Some (2021, 3, 29).
+Proof. exact calc_days_refuted. Qed.
+
+(* + N months (N months = N / 12 years of 365 days + N mod 12 months of 30 days, C10_parse_month):
+   the day of the month is kept and the calendar month moves by N, with the year carry; no
+   result when the target day does not exist (or, for N >= 12, when the date reached after the
+   whole years does not exist: 29 feb) *)
+Theorem C09_months_add : forall n y m d N,
+  civil_from_days n = (y, m, d) -> day_in_range n = true -> 0 <= N ->
+  date_calc n (month_secs N) OAdd =
+  Ok (option_bind (civil_opt (add_years y m d (N / 12))) (fun _ => civil_opt (add_months y m d N))).
+Proof. exact calc_months_add. Qed.
+
+Theorem C09_months_add_small : forall n y m d N,
+  civil_from_days n = (y, m, d) -> day_in_range n = true -> 0 <= N <= 11 ->
+  date_calc n (N * MONTH) OAdd = Ok (civil_opt (add_months y m d N)).
+Proof. exact calc_months_add_small. Qed.
+
+(* - N months: KNOWN C09-month-sub-no-year-borrow: whenever month <= N mod 12 the result is the
+   calendar result of the date one year later *)
+Theorem C09_months_sub : forall n y m d N,
+  civil_from_days n = (y, m, d) -> day_in_range n = true -> 0 <= N ->
+  date_calc n (month_secs N) OSub =
+  Ok (option_bind (civil_opt (add_years y m d (- (N / 12)))) (fun _ =>
+        civil_opt (add_months (if m <=? N mod 12 then y + 1 else y) m d (- N)))).
+Proof. exact calc_months_sub. Qed.
+
+(* outside that class: calendar arithmetic *)
+Theorem C09_months_sub_calendar : forall n y m d N,
+  civil_from_days n = (y, m, d) -> day_in_range n = true -> 0 <= N -> N mod 12 < m ->
+  valid_date (y - N / 12) m d = true -> MIN_YEAR <= y - N / 12 <= MAX_YEAR ->
+  date_calc n (month_secs N) OSub = Ok (civil_opt (add_months y m d (- N))).
+Proof. exact calc_months_sub_calendar. Qed.
+
+Theorem C09_months_sub_refuted :
+  date_calc (days_from_civil 2021 3 15) (month_secs 3) OSub = Ok (Some (days_from_civil 2021 12 15)) /\
+  add_months 2021 3 15 (- 3) = Some (2020, 12, 15) /\
+  date_calc (days_from_civil 2019 1 28) (month_secs 14) OSub = Ok (Some (days_from_civil 2018 11 28)) /\
+  add_months 2019 1 28 (- 14) = Some (2017, 11, 28).
+Proof. exact calc_months_sub_refuted. Qed.
+
+(* +/- N years (N years = N * 365 days): same month and day, the year moves by N; no result
+   for 29 feb when the target year is not a leap year *)
+Theorem C09_years : forall n y m d N,
+  civil_from_days n = (y, m, d) -> day_in_range n = true -> 0 <= N ->
+  date_calc n (N * YEAR) OAdd = Ok (civil_opt (add_years y m d N)) /\
+  date_calc n (N * YEAR) OSub = Ok (civil_opt (add_years y m d (- N))).
+Proof. exact calc_years. Qed.
+
+(* the general shape behind the theorems above *)
+Theorem C09_add_split : forall n y m d Y M R,
+  civil_from_days n = (y, m, d) -> day_in_range n = true ->
+  0 <= Y -> 0 <= M -> 0 <= R < MONTH -> M * MONTH + R < YEAR ->
+  date_calc n (Y * YEAR + (M * MONTH + R)) OAdd =
+  Ok (option_bind (civil_opt (add_years y m d Y)) (fun _ =>
+      option_bind (civil_opt (add_months (y + Y) m d M)) (fun n2 => date_add_opt n2 R))).
+Proof. exact calc_add_split. Qed.
+
+Theorem C09_sub_split : forall n y m d Y M R,
+  civil_from_days n = (y, m, d) -> day_in_range n = true ->
+  0 <= Y -> 0 <= M -> 0 <= R < MONTH -> M * MONTH + R < YEAR ->
+  date_calc n (Y * YEAR + (M * MONTH + R)) OSub =
+  Ok (option_bind (civil_opt (add_years y m d (- Y))) (fun _ =>
+      option_bind (civil_opt (add_months (if m <=? M mod 12 then y - Y + 1 else y - Y) m d (- M)))
+                  (fun n2 => date_add_opt n2 (- R)))).
+Proof. exact calc_sub_split. Qed.
+
+(* ---------------------------------------------------------------- today, tomorrow, yesterday *)
+(* the lexer (default configuration) turns the words into the dates today, today + 1, today - 1,
+   for every value of the clock *)
+Theorem C09_today_words : forall today,
+  map (line_tokens today (s "en")) [s "today"; s "tomorrow"; s "yesterday"]
+  = map (fun d => Some [Some (TDate d UTC)]) [today; today + 1; today - 1] /\
+  map (line_tokens today (s "tr")) tr_today
+  = map (fun d => Some [Some (TDate d UTC)]) [today; today; today + 1; today + 1; today - 1; today - 1].
+Proof. exact today_words. Qed.
+
+(* ... which are consecutive calendar days *)
+Theorem C09_consecutive : forall today,
+  add_days today 1 = today + 1 /\ add_days today (- 1) = today - 1 /\
+  prev_date_of (civil_from_days today) (civil_from_days (today + 1)) /\
+  prev_date_of (civil_from_days (today - 1)) (civil_from_days today) /\
+  diff_days (today - 1) today = 1 /\ diff_days today (today + 1) = 1.
+Proof. exact consecutive_days. Qed.
+
+(* ---------------------------------------------------------------- printing *)
+(* tables regenerated from config.json: the printed month words are the language's month names
+   in calendar order (en and tr), and the two date patterns are 'day Month' / 'day Mon year' *)
+Theorem C09_print_tables :
+  forall lang, In lang [s "en"; s "tr"] ->
+  option_map (map (fun mi => (uppercase_first_letter (mi_long mi), uppercase_first_letter (mi_short mi), mi_month mi)))
+             (assoc lang d_months)
+  = Some (combine (combine (fst (month_names lang)) (snd (month_names lang))) [1; 2; 3; 4; 5; 6; 7; 8; 9; 10; 11; 12]) /\
+  option_map (fun f => (lf_language f, assoc (s "current_year") (lf_date f), assoc (s "full_date") (lf_date f)))
+             (assoc lang d_format)
+  = Some (lang, Some (s "{day} {month_long}"), Some (s "{day} {month_short} {year}")).
+Proof. exact print_tables. Qed.
+
+(* every day from 31 dec 2023 to 1 jan 2025 (a leap year and its borders), en and tr, every value
+   of the clock: the text is 'day Month' with the long month name iff the year of the date is the
+   current year, 'day Mon year' otherwise (ref_print, Proofs/C09.v) *)
+Theorem C09_print_2024 : forall lang now_year n,
+  In lang [s "en"; s "tr"] ->
+  days_from_civil 2023 12 31 <= n <= days_from_civil 2025 1 1 ->
+  date_print default_config lang now_year n UTC = ref_print lang now_year n.
+Proof. exact print_2024. Qed.
+
+(* the year of the date is compared with the clock and nothing else *)
+Theorem C09_print_now : forall {F} (cfg : config F) lang ny1 ny2 n tz,
+  (year_of n =? ny1) = (year_of n =? ny2) -> date_print cfg lang ny1 n tz = date_print cfg lang ny2 n tz.
+Proof. exact @date_print_now. Qed.
+
+(* ---------------------------------------------------------------- non-vacuity *)
+Theorem C09_examples :
+  date_calc (days_from_civil 2020 2 28) (2 * 86400) OAdd = Ok (Some (days_from_civil 2020 3 1)) /\
+  date_calc (days_from_civil 2021 2 28) (2 * 86400) OAdd = Ok (Some (days_from_civil 2021 3 2)) /\
+  date_calc (days_from_civil 2021 1 1) (1 * 86400) OSub = Ok (Some (days_from_civil 2020 12 31)) /\
+  date_calc (days_from_civil 2021 1 31) (month_secs 1) OAdd = Ok None /\
+  date_calc (days_from_civil 2021 11 15) (month_secs 1) OAdd = Ok (Some (days_from_civil 2021 12 15)) /\
+  date_calc (days_from_civil 2021 12 15) (month_secs 1) OAdd = Ok (Some (days_from_civil 2022 1 15)) /\
+  date_calc (days_from_civil 2019 4 1) (month_secs 3) OSub = Ok (Some (days_from_civil 2019 1 1)) /\
+  date_calc (days_from_civil 2020 2 29) (4 * YEAR) OAdd = Ok (Some (days_from_civil 2024 2 29)) /\
+  date_calc (days_from_civil 2020 2 29) (1 * YEAR) OAdd = Ok None /\
+  date_calc (days_from_civil 1988 2 12) (32 * YEAR) OAdd = Ok (Some (days_from_civil 2020 2 12)).
+Proof. exact calc_examples. Qed.
+
+Print Assumptions C09_valid_iff.
+Print Assumptions C09_small_date_sound.
+Print Assumptions C09_small_date_complete.
+Print Assumptions C09_small_date_no_panic.
+Print Assumptions C09_to_days.
+Print Assumptions C09_to_symmetric.
+Print Assumptions C09_calc_item.
+Print Assumptions C09_days_exact.
+Print Assumptions C09_days_quantised.
+Print Assumptions C09_days_refuted.
+Print Assumptions C09_months_add.
+Print Assumptions C09_months_add_small.
+Print Assumptions C09_months_sub.
+Print Assumptions C09_months_sub_calendar.
+Print Assumptions C09_months_sub_refuted.
+Print Assumptions C09_years.
+Print Assumptions C09_add_split.
+Print Assumptions C09_sub_split.
+Print Assumptions C09_today_words.
+Print Assumptions C09_consecutive.
+Print Assumptions C09_print_tables.
+Print Assumptions C09_print_2024.
+Print Assumptions C09_print_now.
+Print Assumptions C09_examples.
